@@ -27,7 +27,8 @@ class Exploration:
         vals.MAXALT = int(opts.get('maxalt', 24))
         s.e = Engine(m, s.NT, concrete=concrete, opts=opts)
         if concrete is None: vals.pruner.reset(s.e.assumes)
-        vals.pruner.enabled = concrete is None and bool(opts.get('prune'))
+        vals.pruner.enabled = concrete is None and bool(opts.get('prune', 1 if s.NT else 0))      # default: on for multi-threaded harnesses
+        vals.pruner.budget = float(opts.get('prune_budget', 60))
         s.e.sequential = (s.NT == 0)
         s.e.ctrlsets = []
         s.scheds = []; s.steps_used = 0; s.hist = []
